@@ -109,6 +109,71 @@ Definition load (sort : bool) (listing : list fsn) : list ft :=
   kids sort (flat_map (conv sort) listing).
 
 (* ------------------------------------------------------------------ *)
+(* The same function written with the loop structure of the source (fs.py:74-103),
+   proved equal to [load] in FsVisitProofs.v; the correspondence check runs THIS one.
+
+   - a [Path] object is its list of components (PurePosixPath._parts_normcase; the
+     flavour is POSIX: no case folding) together with what iterdir() on it returns;
+     `c = pth / name` has the components [pth ++ [name]];
+   - `sorted(dirs, key=itemgetter(0))` compares the Path objects: Python list
+     comparison of the components ([path_ltb]: first differing component decides,
+     a proper prefix is smaller);
+   - the recursion `visit(pn, c)` happens after sorting, on the listing of [c];
+     [fuel] bounds the nesting depth (Python: the recursion limit). *)
+Section StableSortGen.
+  Context {X : Type} (ltb : X -> X -> bool).
+  Fixpoint ins_g (x : X) (l : list X) : list X :=
+    match l with
+    | [] => [x]
+    | y :: r => if ltb y x then y :: ins_g x r else x :: y :: r
+    end.
+  Definition sort_g (l : list X) : list X := fold_right ins_g [] l.
+End StableSortGen.
+
+Definition path := list text.
+Fixpoint path_ltb (a b : path) : bool :=
+  match a, b with
+  | _, [] => false
+  | [], _ :: _ => true
+  | x :: a', y :: b' => if text_eqb x y then path_ltb a' b' else text_ltb x y
+  end.
+
+Definition pathobj := (path * list fsn)%type.
+
+Fixpoint visit (fuel : nat) (sort : bool) (pth : path) (listing : list fsn) : list ft :=
+  match fuel with
+  | O => []
+  | S fuel' =>
+      if sort then
+        let dirs : list (pathobj * fse) :=
+          flat_map (fun c => match c with Dir n l => [((pth ++ [n], l), entry_dir n)] | _ => [] end) listing in
+        let files : list fse :=
+          flat_map (fun c => match c with File n s m => [entry_file n s m] | _ => [] end) listing in
+        (* for o in sorted(files, key=attrgetter("name")): node.add(o) *)
+        map (fun o => FN o []) (sort_by e_name files) ++
+        (* for c, o in sorted(dirs, key=itemgetter(0)): pn = node.add(o); visit(pn, c) *)
+        map (fun co => FN (snd co) (visit fuel' sort (fst (fst co)) (snd (fst co))))
+            (sort_g (fun a b => path_ltb (fst (fst a)) (fst (fst b))) dirs)
+      else
+        flat_map (fun c => match c with
+                           | Dir n l => [FN (entry_dir n) (visit fuel' sort (pth ++ [n]) l)]
+                           | File n s m => [FN (entry_file n s m) []]
+                           | Other _ => []
+                           end) listing
+  end.
+
+Fixpoint fdepth (x : fsn) : nat :=
+  match x with
+  | Dir _ l => S (fold_right (fun c a => Nat.max (fdepth c) a) 0%nat l)
+  | _ => 0%nat
+  end.
+Definition depth_l (l : list fsn) : nat := fold_right (fun c a => Nat.max (fdepth c) a) 0%nat l.
+
+(* load_tree_from_fs(path, sort=sort): [root] = the components of [path] *)
+Definition load_tree_from_fs (sort : bool) (root : path) (listing : list fsn) : list ft :=
+  visit (S (depth_l listing)) sort root listing.
+
+(* ------------------------------------------------------------------ *)
 (* JSON-able dict values and the FS mappers (fs.py:42-61)               *)
 Inductive jv := JNull | JBool (b : bool) | JInt (z : Z) | JFloat (m : mtime) | JStr (t : text).
 Definition dict := list (text * jv).          (* insertion ordered *)
